@@ -47,7 +47,10 @@ type builtCase struct {
 	// SigOpts: "" (the digest alone: PKCS#1 v1.5 / ECDSA) | pss-auto | pss-equals-hash | pss-salt-20
 	// (an *rsa.PSSOptions with that salt length, as library callers and the worker RPC pass)
 	SigOpts string `json:",omitempty"`
-	Chain   string `json:",omitempty"` // "" (leaf, intermediate, root) | cross (plus the same intermediate certified by a second root: same name, key and key identifier) | repeated (the leaf listed twice, as a bundle that repeats it does)
+	// Payload (hex) / PayloadName: the content octets instead of dergen.DataContent (Content data | detached)
+	Payload     string `json:",omitempty"`
+	PayloadName string `json:",omitempty"`
+	Chain       string `json:",omitempty"` // "" (leaf, intermediate, root) | cross (plus the same intermediate certified by a second root: same name, key and key identifier) | repeated (the leaf listed twice, as a bundle that repeats it does)
 }
 
 func (c builtCase) String() string {
@@ -57,6 +60,9 @@ func (c builtCase) String() string {
 	}
 	if c.SigOpts != "" {
 		s += " sigopts=" + c.SigOpts
+	}
+	if c.PayloadName != "" {
+		s += " payload=" + c.PayloadName
 	}
 	if c.Token != nil {
 		s += " token{" + c.Token.String() + "}"
@@ -317,6 +323,14 @@ func runBuilt(c builtCase) {
 	}
 	var psd *pkcs7.ContentInfoSignedData
 	var ext []byte
+	data := dergen.DataContent
+	if c.PayloadName != "" {
+		var herr error
+		if data, herr = hex.DecodeString(c.Payload); herr != nil {
+			harnessError(in, "payload", herr.Error())
+			return
+		}
+	}
 	err, pan := guard(in, "pkcs7.SignatureBuilder.Sign", func() error {
 		var so crypto.SignerOpts = h
 		switch c.SigOpts {
@@ -330,11 +344,11 @@ func runBuilt(c builtCase) {
 		sb := pkcs7.NewBuilder(k.Signer, c.chain(k), so)
 		switch c.Content {
 		case "data":
-			if err := sb.SetContentData(dergen.DataContent); err != nil {
+			if err := sb.SetContentData(bytes.Clone(data)); err != nil {
 				return err
 			}
 		case "detached":
-			ext = dergen.DataContent
+			ext = data
 			if err := sb.SetDetachedContent(pkcs7.OidData, dergen.Digest(h, ext)); err != nil {
 				return err
 			}
@@ -403,6 +417,9 @@ func runBuilt(c builtCase) {
 		// relic refuses the authority's answer (or its own product): not an
 		// emission, so nothing to compare. Counted by class.
 		run.Outcome("built:refused:" + short(err))
+		if c.Token != nil && c.Token.WrapTST != "" && tsa != nil && tsa.lastResp != nil {
+			wrappedTokenRefused(in, c, tsa.lastResp, psd, err)
+		}
 		if c.SigOpts != "" && c.Stamp == "none" {
 			// relic's check of its own product: the same case signed with the
 			// digest alone tells whether the refusal is about the case (detached
@@ -416,19 +433,29 @@ func runBuilt(c builtCase) {
 		return
 	}
 	blob := out.Raw
+	if c.Content == "data" {
+		// the content octets are copied: what the caller handed to the builder is what is emitted
+		if l0, err := dergen.Locate(blob); err == nil && (!l0.HasEContent || l0.EContentTag != 4 || !bytes.Equal(l0.EContentBody.Of(blob), data)) {
+			violation("built:emitted-content-differs-from-given", fmt.Sprintf("built %s: the eContent octets of the product are not the %d octets handed to SetContentData", c, len(data)), in.replay("built", map[string]any{"output_hex": hex.EncodeToString(blob)}))
+		}
+	}
 	if c.After == "detach" {
 		// what jar (detached), csblob and xar do after TimestampAndMarshal
 		if l0, err := dergen.Locate(blob); err == nil && l0.HasEContent {
 			ext = append([]byte{}, l0.EContentBody.Of(blob)...)
 		}
+		var detached []byte
 		err, pan = guard(in, "ContentInfoSignedData.Detach", func() error {
-			if _, e := psd.Detach(); e != nil {
+			var e error
+			if detached, e = psd.Detach(); e != nil {
 				return e
 			}
-			var e error
 			blob, e = psd.Marshal()
 			return e
 		})
+		if err == nil && c.Content == "data" && !bytes.Equal(detached, data) {
+			violation("detach:returned-content-differs", fmt.Sprintf("built %s: Detach returned %d bytes, the content handed to the builder has %d", c, len(detached), len(data)), in.replay("detach", nil))
+		}
 		if err != nil {
 			if !pan {
 				violation("detach-error", fmt.Sprintf("built %s: %v", c, err), in.replay("detach", nil))
@@ -539,7 +566,70 @@ func runBuilt(c builtCase) {
 	in.X = blob
 	in.Ext = ext
 	in.OpenSSL = c.Token == nil
+	if c.PayloadName != "" {
+		// the content dimension: parse/emit and detach are the operations that touch it
+		in.Ops = "roundtrip,detach"
+		in.MustOpenSSL = true
+	}
 	runOps(in)
+}
+
+// wrappedTokenRefused: relic refused a token whose TSTInfo sits in a second,
+// dummy OCTET STRING (a quirk of some authorities that relic reads). If the
+// independent verifier accepts the token as it stands - messageDigest over the
+// eContent octets AS ENCODED (04 LL TSTInfo), signature over the signed
+// attributes as encoded, imprint over the signature that was sent - and relic
+// accepts the same authority's token without the quirk, the refusal means
+// relic digested something else than the encoded content.
+func wrappedTokenRefused(in *input, c builtCase, resp []byte, psd *pkcs7.ContentInfoSignedData, refusal error) {
+	want, err := tokenOfResponse(resp)
+	if err != nil {
+		return // the authority's answer carries no token: nothing was refused
+	}
+	lw, err := dergen.Locate(want)
+	if err != nil {
+		harnessError(in, "tsa", "authority token does not locate: "+err.Error())
+		return
+	}
+	if fails := dergen.VerifyAll(lw, nil, fx.Pool); len(fails) > 0 {
+		harnessError(in, "tsa", "wrapped authority token fails the independent verifier: "+fails[0].Err.Error())
+		return
+	}
+	twin := c
+	tp := *c.Token
+	tp.WrapTST = ""
+	twin.Token = &tp
+	if !builtAcceptsToken(twin) {
+		run.Outcome("built:wrapped-token-refused-like-its-plain-twin")
+		return
+	}
+	violation("valid-token-refused:tstinfo-in-dummy-octet-string", fmt.Sprintf("built %s: %v (the token verifies independently over its eContent octets as encoded, and the same token shape without the dummy OCTET STRING is accepted)", c, refusal),
+		in.replay("built", map[string]any{"authority_token_hex": hex.EncodeToString(want)}))
+}
+
+// builtAcceptsToken: does builder + TimestampAndMarshal accept the authority's answer for c?
+func builtAcceptsToken(c builtCase) bool {
+	k := fx.Keys[c.Key]
+	h := map[string]crypto.Hash{"sha1": crypto.SHA1, "sha256": crypto.SHA256, "sha384": crypto.SHA384}[c.Hash]
+	ok := false
+	func() {
+		defer func() { _ = recover() }()
+		sb := pkcs7.NewBuilder(k.Signer, c.chain(k), h)
+		if sb.SetContentData(dergen.DataContent) != nil {
+			return
+		}
+		if sb.AddAuthenticatedAttribute(pkcs7.OidAttributeSigningTime, time.Date(2026, 6, 1, 12, 0, 0, 0, time.UTC)) != nil {
+			return
+		}
+		psd, err := sb.Sign()
+		if err != nil {
+			return
+		}
+		tsa := &harnessTSA{answer: dergenTSA(c.Token)}
+		_, err = pkcs9.TimestampAndMarshal(context.Background(), psd, tsa, c.Stamp == "authenticode")
+		ok = err == nil
+	}()
+	return ok
 }
 
 // builtEmits: does the builder + TimestampAndMarshal path emit anything for c (no authority involved)?
